@@ -81,6 +81,9 @@ func (fx *FnExec) calleeEnv(con *Contract, recv *Val, args []Val, heap, old *Hea
 	env := &Env{fx: fx, names: map[string]Val{}, heap: heap, old: old, results: results}
 	if con.FuncT != nil {
 		env.pkg = fx.e.tpkgs[con.PkgPath]
+		if recv != nil {
+			env.names["self"] = *recv
+		}
 		for i, n := range con.Params {
 			if i < len(args) && n != "" && n != "_" {
 				env.names[n] = args[i]
@@ -415,7 +418,28 @@ func (fx *FnExec) call(instr ssa.Instruction, cc *ssa.CallCommon, pos token.Pos)
 		}
 	}
 	con, key := fx.calleeContract(cc)
+	if con != nil && recv == nil && !cc.IsInvoke() && cc.StaticCallee() == nil {
+		// contract on a function value: `self` is the function value (functype) or the struct holding it (funcfield)
+		if con.Flags["funcfield"] != "" {
+			if u, ok := cc.Value.(*ssa.UnOp); ok {
+				if fa, ok := u.X.(*ssa.FieldAddr); ok {
+					r := fx.plain(fx.val(fa.X))
+					recv = &r
+				}
+			}
+		} else {
+			r := fx.plain(fx.val(cc.Value))
+			recv = &r
+		}
+	}
 	var result Val
+	if con == nil && cc.IsInvoke() && fx.e.closedWorld(cc.Value.Type()) {
+		if r, ok, err := fx.dispatchPure(cc, recv, args, resultType, resT, pos); err != nil {
+			return Val{}, err
+		} else if ok {
+			return r, nil
+		}
+	}
 	if con != nil {
 		var err error
 		result, err = fx.applyContract(con, key, recv, args, resultType, resT, pos)
@@ -887,7 +911,7 @@ func (fx *FnExec) frame(con *Contract, x *ssa.Return) error {
 	}
 	sort.Strings(names)
 	for _, n := range names {
-		if n == "$alloc" || n == "$fail" {
+		if n == "$alloc" || n == "$fail" || strings.HasPrefix(n, "L.") {
 			continue
 		}
 		goal := fx.frameFact(n, &fx.cur, byName)
@@ -943,4 +967,78 @@ func (fx *FnExec) invokedClosureMods(env0 *Env, pn string) {
 			}
 		}
 	}
+}
+
+// dispatchPure: a call through a closed-world interface whose method has no interface-level contract
+// is resolved by case split over the implementations, provided every one of them has a pure contract.
+func (fx *FnExec) dispatchPure(cc *ssa.CallCommon, recv *Val, args []Val, resultType types.Type, resT *types.Tuple, pos token.Pos) (Val, bool, error) {
+	ids := fx.e.implementors(cc.Value.Type())
+	if len(ids) == 0 {
+		return Val{}, false, nil
+	}
+	type alt struct {
+		id  int
+		con *Contract
+		t   types.Type
+	}
+	var alts []alt
+	for _, id := range ids {
+		t := fx.e.tt.types[id-1]
+		ms := fx.e.prog.MethodSets.MethodSet(t)
+		sel := ms.Lookup(cc.Method.Pkg(), cc.Method.Name())
+		if sel == nil {
+			return Val{}, false, nil
+		}
+		fn := fx.e.prog.MethodValue(sel)
+		if fn == nil {
+			return Val{}, false, nil
+		}
+		// promoted methods: the contract belongs to the declaring type
+		var c *Contract
+		if fn.Synthetic != "" {
+			if obj, ok := sel.Obj().(*types.Func); ok {
+				c = fx.e.contracts[funcKeyOf(obj)]
+			}
+		} else {
+			c = fx.e.contracts[keyOfFunction(fn)]
+		}
+		if c == nil || !c.HasMod || c.ModAll || len(c.Mod) > 0 {
+			return Val{}, false, nil
+		}
+		if fn.Synthetic != "" {
+			// receiver of a promoted method is an embedded field: only result facts that do not mention the receiver are usable
+			alts = append(alts, alt{id, c, nil})
+			continue
+		}
+		alts = append(alts, alt{id, c, t})
+	}
+	result := fx.freshVal(resultType, "r."+cc.Method.Name())
+	fx.assume(fx.wellTyped(result, &fx.cur))
+	fx.assumeResultTypes(result, resT)
+	results := splitResults(fx, result, resT)
+	for _, a := range alts {
+		fx.usedContracts[a.con.Key] = true
+		var rv *Val
+		if a.t != nil {
+			u := fx.unbox(recv.L[1], a.t)
+			rv = &u
+		}
+		env := fx.calleeEnv(a.con, rv, args, &fx.cur, &fx.cur, results)
+		guard := sEq(recv.L[0], intLit(int64(a.id)))
+		for _, en := range a.con.Ens {
+			if en.Kind == "lensures" {
+				continue
+			}
+			t, err := env.evalBool(en.Text)
+			if err != nil {
+				if a.t == nil {
+					continue
+				}
+				return Val{}, false, fmt.Errorf("%s:%d: %v", en.File, en.Line, err)
+			}
+			fx.assume(sImp(guard, t))
+		}
+	}
+	fx.usedContracts["dispatch:"+funcKeyOf(cc.Method)] = true
+	return result, true, nil
 }
